@@ -1,0 +1,593 @@
+//go:build verif
+
+package ord
+
+// Contracts for package ord, checked by /verif/govc.  Comment-only file.
+//
+// Property C10 (loop-free part): every Ord instance / combinator is a strict
+// total order up to its own Eqv, under the hypothesis that its components are
+// (veriflaws.OrdCore = equivalence + trichotomy + transitivity + Compare
+// consistent; the combinators never call LessEq / Min / Max of a component).
+// Each lemma has (a) the functional characterisation from the statement
+// (tags def*), (b) the order laws one by one for arbitrary x, y, z and (c) the
+// closed form veriflaws.OrdLaws(result) (tag laws), which is exactly the shape
+// required of components, so the lemmas compose.
+// Seq / Slice (loops) and Time (external function) are not covered here.
+
+//@ import "github.com/csgura/fp/internal/veriflaws"
+//@ import "github.com/csgura/fp/hlist"
+//@ import "github.com/csgura/fp/lazy"
+//@ import "github.com/csgura/fp/as"
+
+//
+// ---- FromCompare / fp.CompareFunc ------------------------------------------
+//
+//@ lemma fromCompareOrd[T any](cmp func(a, b T) int, x T, y T, z T)
+//@   prop C10
+//@   requires veriflaws.CompareLaws(cmp)
+//@   ensures FromCompare(cmp).Compare(x, y) == cmp(x, y)
+//@   tag def
+//@   ensures FromCompare(cmp).Eqv(x, x)
+//@   tag refl
+//@   ensures FromCompare(cmp).Eqv(x, y) == FromCompare(cmp).Eqv(y, x)
+//@   tag sym
+//@   ensures FromCompare(cmp).Eqv(x, y) && FromCompare(cmp).Eqv(y, z) ==> FromCompare(cmp).Eqv(x, z)
+//@   tag trans
+//@   ensures veriflaws.ExactlyOne(FromCompare(cmp).Less(x, y), FromCompare(cmp).Less(y, x), FromCompare(cmp).Eqv(x, y))
+//@   tag trichotomy
+//@   ensures FromCompare(cmp).Less(x, y) && FromCompare(cmp).Less(y, z) ==> FromCompare(cmp).Less(x, z)
+//@   tag lessTrans
+//@   ensures (FromCompare(cmp).Compare(x, y) < 0) == FromCompare(cmp).Less(x, y) && (FromCompare(cmp).Compare(x, y) == 0) == FromCompare(cmp).Eqv(x, y) && (FromCompare(cmp).Compare(x, y) > 0) == FromCompare(cmp).Less(y, x)
+//@   tag compare
+//@   ensures FromCompare(cmp).LessEq(x, y) == (FromCompare(cmp).Less(x, y) || FromCompare(cmp).Eqv(x, y))
+//@   tag lessEq
+//@   ensures FromCompare(cmp).Less(x, y) ==> Eq(FromCompare(cmp).Min(x, y), x) && Eq(FromCompare(cmp).Max(x, y), y)
+//@   tag minmaxLess
+//@   ensures FromCompare(cmp).Less(y, x) ==> Eq(FromCompare(cmp).Min(x, y), y) && Eq(FromCompare(cmp).Max(x, y), x)
+//@   tag minmaxGreater
+//@   ensures (Eq(FromCompare(cmp).Min(x, y), x) && Eq(FromCompare(cmp).Max(x, y), y)) || (Eq(FromCompare(cmp).Min(x, y), y) && Eq(FromCompare(cmp).Max(x, y), x))
+//@   tag minmaxPerm
+//@   ensures veriflaws.OrdLaws(FromCompare(cmp))
+//@   tag laws
+//
+// ---- New -------------------------------------------------------------------
+//
+//@ lemma newOrd[T any](e fp.Eq[T], less func(a, b T) bool, x T, y T, z T)
+//@   prop C10
+//@   requires veriflaws.StrictOrderFor(e, less)
+//@   ensures New(e, less).Eqv(x, y) == e.Eqv(x, y)
+//@   tag defEqv
+//@   ensures New(e, less).Less(x, y) == less(x, y)
+//@   tag defLess
+//@   ensures New(e, less).Eqv(x, x)
+//@   tag refl
+//@   ensures New(e, less).Eqv(x, y) == New(e, less).Eqv(y, x)
+//@   tag sym
+//@   ensures New(e, less).Eqv(x, y) && New(e, less).Eqv(y, z) ==> New(e, less).Eqv(x, z)
+//@   tag trans
+//@   ensures veriflaws.ExactlyOne(New(e, less).Less(x, y), New(e, less).Less(y, x), New(e, less).Eqv(x, y))
+//@   tag trichotomy
+//@   ensures New(e, less).Less(x, y) && New(e, less).Less(y, z) ==> New(e, less).Less(x, z)
+//@   tag lessTrans
+//@   ensures (New(e, less).Compare(x, y) < 0) == New(e, less).Less(x, y) && (New(e, less).Compare(x, y) == 0) == New(e, less).Eqv(x, y) && (New(e, less).Compare(x, y) > 0) == New(e, less).Less(y, x)
+//@   tag compare
+//@   ensures New(e, less).LessEq(x, y) == (New(e, less).Less(x, y) || New(e, less).Eqv(x, y))
+//@   tag lessEq
+//@   ensures New(e, less).Less(x, y) ==> Eq(New(e, less).Min(x, y), x) && Eq(New(e, less).Max(x, y), y)
+//@   tag minmaxLess
+//@   ensures New(e, less).Less(y, x) ==> Eq(New(e, less).Min(x, y), y) && Eq(New(e, less).Max(x, y), x)
+//@   tag minmaxGreater
+//@   ensures (Eq(New(e, less).Min(x, y), x) && Eq(New(e, less).Max(x, y), y)) || (Eq(New(e, less).Min(x, y), y) && Eq(New(e, less).Max(x, y), x))
+//@   tag minmaxPerm
+//@   ensures veriflaws.OrdLaws(New(e, less))
+//@   tag laws
+//
+// ---- as.Ord / fp.LessFunc --------------------------------------------------
+//
+//@ lemma asOrd[T any](less func(a, b T) bool, x T, y T, z T)
+//@   prop C10
+//@   requires veriflaws.StrictWeakOrder(less)
+//@   ensures as.Ord(less).Less(x, y) == less(x, y)
+//@   tag defLess
+//@   ensures as.Ord(less).Eqv(x, y) == (!less(x, y) && !less(y, x))
+//@   tag defEqv
+//@   ensures as.Ord(less).Eqv(x, x)
+//@   tag refl
+//@   ensures as.Ord(less).Eqv(x, y) == as.Ord(less).Eqv(y, x)
+//@   tag sym
+//@   ensures as.Ord(less).Eqv(x, y) && as.Ord(less).Eqv(y, z) ==> as.Ord(less).Eqv(x, z)
+//@   tag trans
+//@   ensures veriflaws.ExactlyOne(as.Ord(less).Less(x, y), as.Ord(less).Less(y, x), as.Ord(less).Eqv(x, y))
+//@   tag trichotomy
+//@   ensures as.Ord(less).Less(x, y) && as.Ord(less).Less(y, z) ==> as.Ord(less).Less(x, z)
+//@   tag lessTrans
+//@   ensures (as.Ord(less).Compare(x, y) < 0) == as.Ord(less).Less(x, y) && (as.Ord(less).Compare(x, y) == 0) == as.Ord(less).Eqv(x, y) && (as.Ord(less).Compare(x, y) > 0) == as.Ord(less).Less(y, x)
+//@   tag compare
+//@   ensures as.Ord(less).LessEq(x, y) == (as.Ord(less).Less(x, y) || as.Ord(less).Eqv(x, y))
+//@   tag lessEq
+//@   ensures as.Ord(less).Less(x, y) ==> Eq(as.Ord(less).Min(x, y), x) && Eq(as.Ord(less).Max(x, y), y)
+//@   tag minmaxLess
+//@   ensures as.Ord(less).Less(y, x) ==> Eq(as.Ord(less).Min(x, y), y) && Eq(as.Ord(less).Max(x, y), x)
+//@   tag minmaxGreater
+//@   ensures (Eq(as.Ord(less).Min(x, y), x) && Eq(as.Ord(less).Max(x, y), y)) || (Eq(as.Ord(less).Min(x, y), y) && Eq(as.Ord(less).Max(x, y), x))
+//@   tag minmaxPerm
+//@   ensures veriflaws.OrdLaws(as.Ord(less))
+//@   tag laws
+//
+// ---- Given -----------------------------------------------------------------
+//
+//@ lemma givenOrd[T fp.ImplicitOrd](x T, y T, z T)
+//@   prop C10
+//@   inst int64
+//@   ensures Given[T]().Less(x, y) == (x < y)
+//@   tag defLess
+//@   ensures Given[T]().Eqv(x, y) == (x == y)
+//@   tag defEqv
+//@   ensures Given[T]().Eqv(x, x)
+//@   tag refl
+//@   ensures Given[T]().Eqv(x, y) == Given[T]().Eqv(y, x)
+//@   tag sym
+//@   ensures Given[T]().Eqv(x, y) && Given[T]().Eqv(y, z) ==> Given[T]().Eqv(x, z)
+//@   tag trans
+//@   ensures veriflaws.ExactlyOne(Given[T]().Less(x, y), Given[T]().Less(y, x), Given[T]().Eqv(x, y))
+//@   tag trichotomy
+//@   ensures Given[T]().Less(x, y) && Given[T]().Less(y, z) ==> Given[T]().Less(x, z)
+//@   tag lessTrans
+//@   ensures (Given[T]().Compare(x, y) < 0) == Given[T]().Less(x, y) && (Given[T]().Compare(x, y) == 0) == Given[T]().Eqv(x, y) && (Given[T]().Compare(x, y) > 0) == Given[T]().Less(y, x)
+//@   tag compare
+//@   ensures Given[T]().LessEq(x, y) == (Given[T]().Less(x, y) || Given[T]().Eqv(x, y))
+//@   tag lessEq
+//@   ensures Given[T]().Less(x, y) ==> Eq(Given[T]().Min(x, y), x) && Eq(Given[T]().Max(x, y), y)
+//@   tag minmaxLess
+//@   ensures Given[T]().Less(y, x) ==> Eq(Given[T]().Min(x, y), y) && Eq(Given[T]().Max(x, y), x)
+//@   tag minmaxGreater
+//@   ensures (Eq(Given[T]().Min(x, y), x) && Eq(Given[T]().Max(x, y), y)) || (Eq(Given[T]().Min(x, y), y) && Eq(Given[T]().Max(x, y), x))
+//@   tag minmaxPerm
+//@   ensures veriflaws.OrdLaws(Given[T]())
+//@   tag laws
+//
+// ---- GivenField ------------------------------------------------------------
+//
+//@ lemma givenFieldOrd[S any, T fp.ImplicitOrd](getter func(S) T, x S, y S, z S)
+//@   prop C10
+//@   inst VT_0, int64
+//@   ensures GivenField(getter).Less(x, y) == (getter(x) < getter(y))
+//@   tag defLess
+//@   ensures GivenField(getter).Eqv(x, y) == (getter(x) == getter(y))
+//@   tag defEqv
+//@   ensures GivenField(getter).Eqv(x, x)
+//@   tag refl
+//@   ensures GivenField(getter).Eqv(x, y) == GivenField(getter).Eqv(y, x)
+//@   tag sym
+//@   ensures GivenField(getter).Eqv(x, y) && GivenField(getter).Eqv(y, z) ==> GivenField(getter).Eqv(x, z)
+//@   tag trans
+//@   ensures veriflaws.ExactlyOne(GivenField(getter).Less(x, y), GivenField(getter).Less(y, x), GivenField(getter).Eqv(x, y))
+//@   tag trichotomy
+//@   ensures GivenField(getter).Less(x, y) && GivenField(getter).Less(y, z) ==> GivenField(getter).Less(x, z)
+//@   tag lessTrans
+//@   ensures (GivenField(getter).Compare(x, y) < 0) == GivenField(getter).Less(x, y) && (GivenField(getter).Compare(x, y) == 0) == GivenField(getter).Eqv(x, y) && (GivenField(getter).Compare(x, y) > 0) == GivenField(getter).Less(y, x)
+//@   tag compare
+//@   ensures GivenField(getter).LessEq(x, y) == (GivenField(getter).Less(x, y) || GivenField(getter).Eqv(x, y))
+//@   tag lessEq
+//@   ensures GivenField(getter).Less(x, y) ==> Eq(GivenField(getter).Min(x, y), x) && Eq(GivenField(getter).Max(x, y), y)
+//@   tag minmaxLess
+//@   ensures GivenField(getter).Less(y, x) ==> Eq(GivenField(getter).Min(x, y), y) && Eq(GivenField(getter).Max(x, y), x)
+//@   tag minmaxGreater
+//@   ensures (Eq(GivenField(getter).Min(x, y), x) && Eq(GivenField(getter).Max(x, y), y)) || (Eq(GivenField(getter).Min(x, y), y) && Eq(GivenField(getter).Max(x, y), x))
+//@   tag minmaxPerm
+//@   ensures veriflaws.OrdLaws(GivenField(getter))
+//@   tag laws
+//
+// ---- ContraMap -------------------------------------------------------------
+//
+//@ lemma contraMapOrd[T, U any](o fp.Ord[T], fn func(U) T, x U, y U, z U)
+//@   prop C10
+//@   requires veriflaws.OrdCore(o)
+//@   ensures ContraMap(o, fn).Less(x, y) == o.Less(fn(x), fn(y))
+//@   tag defLess
+//@   ensures ContraMap(o, fn).Eqv(x, y) == o.Eqv(fn(x), fn(y))
+//@   tag defEqv
+//@   ensures ContraMap(o, fn).Eqv(x, x)
+//@   tag refl
+//@   ensures ContraMap(o, fn).Eqv(x, y) == ContraMap(o, fn).Eqv(y, x)
+//@   tag sym
+//@   ensures ContraMap(o, fn).Eqv(x, y) && ContraMap(o, fn).Eqv(y, z) ==> ContraMap(o, fn).Eqv(x, z)
+//@   tag trans
+//@   ensures veriflaws.ExactlyOne(ContraMap(o, fn).Less(x, y), ContraMap(o, fn).Less(y, x), ContraMap(o, fn).Eqv(x, y))
+//@   tag trichotomy
+//@   ensures ContraMap(o, fn).Less(x, y) && ContraMap(o, fn).Less(y, z) ==> ContraMap(o, fn).Less(x, z)
+//@   tag lessTrans
+//@   ensures (ContraMap(o, fn).Compare(x, y) < 0) == ContraMap(o, fn).Less(x, y) && (ContraMap(o, fn).Compare(x, y) == 0) == ContraMap(o, fn).Eqv(x, y) && (ContraMap(o, fn).Compare(x, y) > 0) == ContraMap(o, fn).Less(y, x)
+//@   tag compare
+//@   ensures ContraMap(o, fn).LessEq(x, y) == (ContraMap(o, fn).Less(x, y) || ContraMap(o, fn).Eqv(x, y))
+//@   tag lessEq
+//@   ensures ContraMap(o, fn).Less(x, y) ==> Eq(ContraMap(o, fn).Min(x, y), x) && Eq(ContraMap(o, fn).Max(x, y), y)
+//@   tag minmaxLess
+//@   ensures ContraMap(o, fn).Less(y, x) ==> Eq(ContraMap(o, fn).Min(x, y), y) && Eq(ContraMap(o, fn).Max(x, y), x)
+//@   tag minmaxGreater
+//@   ensures (Eq(ContraMap(o, fn).Min(x, y), x) && Eq(ContraMap(o, fn).Max(x, y), y)) || (Eq(ContraMap(o, fn).Min(x, y), y) && Eq(ContraMap(o, fn).Max(x, y), x))
+//@   tag minmaxPerm
+//@   ensures veriflaws.OrdLaws(ContraMap(o, fn))
+//@   tag laws
+//
+// ---- Tuple1 ----------------------------------------------------------------
+//
+//@ lemma tuple1Ord[A1 any](o1 fp.Ord[A1], x fp.Tuple1[A1], y fp.Tuple1[A1], z fp.Tuple1[A1])
+//@   prop C10
+//@   requires veriflaws.OrdCore(o1)
+//@   ensures Tuple1(o1).Less(x, y) == o1.Less(x.I1, y.I1)
+//@   tag defLess
+//@   ensures Tuple1(o1).Eqv(x, y) == o1.Eqv(x.I1, y.I1)
+//@   tag defEqv
+//@   ensures Tuple1(o1).Eqv(x, x)
+//@   tag refl
+//@   ensures Tuple1(o1).Eqv(x, y) == Tuple1(o1).Eqv(y, x)
+//@   tag sym
+//@   ensures Tuple1(o1).Eqv(x, y) && Tuple1(o1).Eqv(y, z) ==> Tuple1(o1).Eqv(x, z)
+//@   tag trans
+//@   ensures veriflaws.ExactlyOne(Tuple1(o1).Less(x, y), Tuple1(o1).Less(y, x), Tuple1(o1).Eqv(x, y))
+//@   tag trichotomy
+//@   ensures Tuple1(o1).Less(x, y) && Tuple1(o1).Less(y, z) ==> Tuple1(o1).Less(x, z)
+//@   tag lessTrans
+//@   ensures (Tuple1(o1).Compare(x, y) < 0) == Tuple1(o1).Less(x, y) && (Tuple1(o1).Compare(x, y) == 0) == Tuple1(o1).Eqv(x, y) && (Tuple1(o1).Compare(x, y) > 0) == Tuple1(o1).Less(y, x)
+//@   tag compare
+//@   ensures Tuple1(o1).LessEq(x, y) == (Tuple1(o1).Less(x, y) || Tuple1(o1).Eqv(x, y))
+//@   tag lessEq
+//@   ensures Tuple1(o1).Less(x, y) ==> Eq(Tuple1(o1).Min(x, y), x) && Eq(Tuple1(o1).Max(x, y), y)
+//@   tag minmaxLess
+//@   ensures Tuple1(o1).Less(y, x) ==> Eq(Tuple1(o1).Min(x, y), y) && Eq(Tuple1(o1).Max(x, y), x)
+//@   tag minmaxGreater
+//@   ensures (Eq(Tuple1(o1).Min(x, y), x) && Eq(Tuple1(o1).Max(x, y), y)) || (Eq(Tuple1(o1).Min(x, y), y) && Eq(Tuple1(o1).Max(x, y), x))
+//@   tag minmaxPerm
+//@   ensures veriflaws.OrdLaws(Tuple1(o1))
+//@   tag laws
+//
+// ---- Option (None is the least element) ------------------------------------
+//
+//@ lemma optionOrd[T any](o fp.Ord[T], x fp.Option[T], y fp.Option[T], z fp.Option[T])
+//@   prop C10
+//@   requires veriflaws.OrdCore(o)
+//@   ensures Option(o).Less(x, y) == ((x.IsEmpty() && y.IsDefined()) || (x.IsDefined() && y.IsDefined() && o.Less(x.Get(), y.Get())))
+//@   tag defLess
+//@   ensures Option(o).Eqv(x, y) == ((x.IsEmpty() && y.IsEmpty()) || (x.IsDefined() && y.IsDefined() && o.Eqv(x.Get(), y.Get())))
+//@   tag defEqv
+//@   ensures Option(o).Eqv(x, x)
+//@   tag refl
+//@   ensures Option(o).Eqv(x, y) == Option(o).Eqv(y, x)
+//@   tag sym
+//@   ensures Option(o).Eqv(x, y) && Option(o).Eqv(y, z) ==> Option(o).Eqv(x, z)
+//@   tag trans
+//@   ensures veriflaws.ExactlyOne(Option(o).Less(x, y), Option(o).Less(y, x), Option(o).Eqv(x, y))
+//@   tag trichotomy
+//@   ensures Option(o).Less(x, y) && Option(o).Less(y, z) ==> Option(o).Less(x, z)
+//@   tag lessTrans
+//@   ensures (Option(o).Compare(x, y) < 0) == Option(o).Less(x, y) && (Option(o).Compare(x, y) == 0) == Option(o).Eqv(x, y) && (Option(o).Compare(x, y) > 0) == Option(o).Less(y, x)
+//@   tag compare
+//@   ensures Option(o).LessEq(x, y) == (Option(o).Less(x, y) || Option(o).Eqv(x, y))
+//@   tag lessEq
+//@   ensures Option(o).Less(x, y) ==> Eq(Option(o).Min(x, y), x) && Eq(Option(o).Max(x, y), y)
+//@   tag minmaxLess
+//@   ensures Option(o).Less(y, x) ==> Eq(Option(o).Min(x, y), y) && Eq(Option(o).Max(x, y), x)
+//@   tag minmaxGreater
+//@   ensures (Eq(Option(o).Min(x, y), x) && Eq(Option(o).Max(x, y), y)) || (Eq(Option(o).Min(x, y), y) && Eq(Option(o).Max(x, y), x))
+//@   tag minmaxPerm
+//@   ensures veriflaws.OrdLaws(Option(o))
+//@   tag laws
+//
+//@ lemma optionOrdCases[T any](o fp.Ord[T], a T, b T)
+//@   prop C10
+//@   requires veriflaws.OrdCore(o)
+//@   ensures Option(o).Less(fp.None[T](), fp.Some(a)) && !Option(o).Less(fp.Some(a), fp.None[T]())
+//@   tag noneFirst
+//@   ensures !Option(o).Less(fp.None[T](), fp.None[T]()) && Option(o).Eqv(fp.None[T](), fp.None[T]())
+//@   tag noneNone
+//@   ensures Option(o).Less(fp.Some(a), fp.Some(b)) == o.Less(a, b)
+//@   tag someSome
+//@   ensures Option(o).Compare(fp.Some(a), fp.Some(b)) < 0 == (o.Compare(a, b) < 0) && Option(o).Compare(fp.Some(a), fp.Some(b)) == 0 == (o.Compare(a, b) == 0)
+//@   tag someSomeCompare
+//
+// ---- Ptr (nil is the least element) ----------------------------------------
+//
+//@ lemma ptrOrd[T any](o fp.Ord[T], x *T, y *T, z *T)
+//@   prop C10
+//@   requires veriflaws.OrdCore(o)
+//@   ensures Ptr(lazy.Done(o)).Less(x, y) == ((x == nil && y != nil) || (x != nil && y != nil && o.Less(*x, *y)))
+//@   tag defLess
+//@   ensures Ptr(lazy.Done(o)).Eqv(x, y) == ((x == nil && y == nil) || (x != nil && y != nil && o.Eqv(*x, *y)))
+//@   tag defEqv
+//@   ensures Ptr(lazy.Done(o)).Eqv(x, x)
+//@   tag refl
+//@   ensures Ptr(lazy.Done(o)).Eqv(x, y) == Ptr(lazy.Done(o)).Eqv(y, x)
+//@   tag sym
+//@   ensures Ptr(lazy.Done(o)).Eqv(x, y) && Ptr(lazy.Done(o)).Eqv(y, z) ==> Ptr(lazy.Done(o)).Eqv(x, z)
+//@   tag trans
+//@   ensures veriflaws.ExactlyOne(Ptr(lazy.Done(o)).Less(x, y), Ptr(lazy.Done(o)).Less(y, x), Ptr(lazy.Done(o)).Eqv(x, y))
+//@   tag trichotomy
+//@   ensures Ptr(lazy.Done(o)).Less(x, y) && Ptr(lazy.Done(o)).Less(y, z) ==> Ptr(lazy.Done(o)).Less(x, z)
+//@   tag lessTrans
+//@   ensures (Ptr(lazy.Done(o)).Compare(x, y) < 0) == Ptr(lazy.Done(o)).Less(x, y) && (Ptr(lazy.Done(o)).Compare(x, y) == 0) == Ptr(lazy.Done(o)).Eqv(x, y) && (Ptr(lazy.Done(o)).Compare(x, y) > 0) == Ptr(lazy.Done(o)).Less(y, x)
+//@   tag compare
+//@   ensures Ptr(lazy.Done(o)).LessEq(x, y) == (Ptr(lazy.Done(o)).Less(x, y) || Ptr(lazy.Done(o)).Eqv(x, y))
+//@   tag lessEq
+//@   ensures Ptr(lazy.Done(o)).Less(x, y) ==> Eq(Ptr(lazy.Done(o)).Min(x, y), x) && Eq(Ptr(lazy.Done(o)).Max(x, y), y)
+//@   tag minmaxLess
+//@   ensures Ptr(lazy.Done(o)).Less(y, x) ==> Eq(Ptr(lazy.Done(o)).Min(x, y), y) && Eq(Ptr(lazy.Done(o)).Max(x, y), x)
+//@   tag minmaxGreater
+//@   ensures (Eq(Ptr(lazy.Done(o)).Min(x, y), x) && Eq(Ptr(lazy.Done(o)).Max(x, y), y)) || (Eq(Ptr(lazy.Done(o)).Min(x, y), y) && Eq(Ptr(lazy.Done(o)).Max(x, y), x))
+//@   tag minmaxPerm
+//
+// ---- HNil / HCons ----------------------------------------------------------
+//
+//@ lemma hnilOrd(x hlist.Nil, y hlist.Nil, z hlist.Nil)
+//@   prop C10
+//@   ensures !HNil.Less(x, y)
+//@   tag defLess
+//@   ensures HNil.Eqv(x, y)
+//@   tag defEqv
+//@   ensures HNil.Eqv(x, x)
+//@   tag refl
+//@   ensures HNil.Eqv(x, y) == HNil.Eqv(y, x)
+//@   tag sym
+//@   ensures HNil.Eqv(x, y) && HNil.Eqv(y, z) ==> HNil.Eqv(x, z)
+//@   tag trans
+//@   ensures veriflaws.ExactlyOne(HNil.Less(x, y), HNil.Less(y, x), HNil.Eqv(x, y))
+//@   tag trichotomy
+//@   ensures HNil.Less(x, y) && HNil.Less(y, z) ==> HNil.Less(x, z)
+//@   tag lessTrans
+//@   ensures (HNil.Compare(x, y) < 0) == HNil.Less(x, y) && (HNil.Compare(x, y) == 0) == HNil.Eqv(x, y) && (HNil.Compare(x, y) > 0) == HNil.Less(y, x)
+//@   tag compare
+//@   ensures HNil.LessEq(x, y) == (HNil.Less(x, y) || HNil.Eqv(x, y))
+//@   tag lessEq
+//@   ensures HNil.Less(x, y) ==> Eq(HNil.Min(x, y), x) && Eq(HNil.Max(x, y), y)
+//@   tag minmaxLess
+//@   ensures HNil.Less(y, x) ==> Eq(HNil.Min(x, y), y) && Eq(HNil.Max(x, y), x)
+//@   tag minmaxGreater
+//@   ensures (Eq(HNil.Min(x, y), x) && Eq(HNil.Max(x, y), y)) || (Eq(HNil.Min(x, y), y) && Eq(HNil.Max(x, y), x))
+//@   tag minmaxPerm
+//@   ensures veriflaws.OrdLaws(HNil)
+//@   tag laws
+//
+//@ lemma hconsOrd[H any, T hlist.HList](ho fp.Ord[H], to fp.Ord[T], x hlist.Cons[H, T], y hlist.Cons[H, T], z hlist.Cons[H, T])
+//@   prop C10
+//@   inst VT_0, hlist.Cons[VT_1, hlist.Nil]
+//@   requires veriflaws.OrdCore(ho) && veriflaws.OrdCore(to)
+//@   ensures HCons(ho, to).Less(x, y) == (ho.Less(hlist.Head(x), hlist.Head(y)) || (ho.Eqv(hlist.Head(x), hlist.Head(y)) && to.Less(hlist.Tail(x), hlist.Tail(y))))
+//@   tag defLess
+//@   ensures HCons(ho, to).Eqv(x, y) == (ho.Eqv(hlist.Head(x), hlist.Head(y)) && to.Eqv(hlist.Tail(x), hlist.Tail(y)))
+//@   tag defEqv
+//@   ensures HCons(ho, to).Eqv(x, x)
+//@   tag refl
+//@   ensures HCons(ho, to).Eqv(x, y) == HCons(ho, to).Eqv(y, x)
+//@   tag sym
+//@   ensures HCons(ho, to).Eqv(x, y) && HCons(ho, to).Eqv(y, z) ==> HCons(ho, to).Eqv(x, z)
+//@   tag trans
+//@   ensures veriflaws.ExactlyOne(HCons(ho, to).Less(x, y), HCons(ho, to).Less(y, x), HCons(ho, to).Eqv(x, y))
+//@   tag trichotomy
+//@   ensures HCons(ho, to).Less(x, y) && HCons(ho, to).Less(y, z) ==> HCons(ho, to).Less(x, z)
+//@   tag lessTrans
+//@   ensures (HCons(ho, to).Compare(x, y) < 0) == HCons(ho, to).Less(x, y) && (HCons(ho, to).Compare(x, y) == 0) == HCons(ho, to).Eqv(x, y) && (HCons(ho, to).Compare(x, y) > 0) == HCons(ho, to).Less(y, x)
+//@   tag compare
+//@   ensures HCons(ho, to).LessEq(x, y) == (HCons(ho, to).Less(x, y) || HCons(ho, to).Eqv(x, y))
+//@   tag lessEq
+//@   ensures HCons(ho, to).Less(x, y) ==> Eq(HCons(ho, to).Min(x, y), x) && Eq(HCons(ho, to).Max(x, y), y)
+//@   tag minmaxLess
+//@   ensures HCons(ho, to).Less(y, x) ==> Eq(HCons(ho, to).Min(x, y), y) && Eq(HCons(ho, to).Max(x, y), x)
+//@   tag minmaxGreater
+//@   ensures (Eq(HCons(ho, to).Min(x, y), x) && Eq(HCons(ho, to).Max(x, y), y)) || (Eq(HCons(ho, to).Min(x, y), y) && Eq(HCons(ho, to).Max(x, y), x))
+//@   tag minmaxPerm
+//@   ensures veriflaws.OrdLaws(HCons(ho, to))
+//@   tag laws
+//
+//@ lemma hcons2Ord[A1, A2 any](o1 fp.Ord[A1], o2 fp.Ord[A2], a1 A1, a2 A2, b1 A1, b2 A2)
+//@   prop C10
+//@   requires veriflaws.OrdCore(o1) && veriflaws.OrdCore(o2)
+//@   ensures HCons(o1, HCons(o2, HNil)).Less(hlist.Concat(a1, hlist.Concat(a2, hlist.Empty())), hlist.Concat(b1, hlist.Concat(b2, hlist.Empty()))) == (o1.Less(a1, b1) || (o1.Eqv(a1, b1) && o2.Less(a2, b2)))
+//@   tag defLess
+//@   ensures HCons(o1, HCons(o2, HNil)).Eqv(hlist.Concat(a1, hlist.Concat(a2, hlist.Empty())), hlist.Concat(b1, hlist.Concat(b2, hlist.Empty()))) == (o1.Eqv(a1, b1) && o2.Eqv(a2, b2))
+//@   tag defEqv
+//
+// ---- ThenComparing (only breaks ties) --------------------------------------
+//
+//@ lemma thenComparingCompareFunc[T any](cmp func(a, b T) int, p fp.Ord[T], x T, y T, z T)
+//@   prop C10
+//@   requires veriflaws.CompareLaws(cmp) && veriflaws.OrdCore(p)
+//@   ensures cmp(x, y) != 0 ==> fp.CompareFunc[T](cmp).ThenComparing(p).Compare(x, y) == cmp(x, y)
+//@   tag defPrimary
+//@   ensures cmp(x, y) == 0 ==> fp.CompareFunc[T](cmp).ThenComparing(p).Compare(x, y) == p.Compare(x, y)
+//@   tag defTie
+//@   ensures fp.CompareFunc[T](cmp).ThenComparing(p).Less(x, y) == (cmp(x, y) < 0 || (cmp(x, y) == 0 && p.Less(x, y)))
+//@   tag defLess
+//@   ensures fp.CompareFunc[T](cmp).ThenComparing(p).Eqv(x, y) == (cmp(x, y) == 0 && p.Eqv(x, y))
+//@   tag defEqv
+//@   ensures fp.CompareFunc[T](cmp).ThenComparing(p).Eqv(x, x)
+//@   tag refl
+//@   ensures fp.CompareFunc[T](cmp).ThenComparing(p).Eqv(x, y) == fp.CompareFunc[T](cmp).ThenComparing(p).Eqv(y, x)
+//@   tag sym
+//@   ensures fp.CompareFunc[T](cmp).ThenComparing(p).Eqv(x, y) && fp.CompareFunc[T](cmp).ThenComparing(p).Eqv(y, z) ==> fp.CompareFunc[T](cmp).ThenComparing(p).Eqv(x, z)
+//@   tag trans
+//@   ensures veriflaws.ExactlyOne(fp.CompareFunc[T](cmp).ThenComparing(p).Less(x, y), fp.CompareFunc[T](cmp).ThenComparing(p).Less(y, x), fp.CompareFunc[T](cmp).ThenComparing(p).Eqv(x, y))
+//@   tag trichotomy
+//@   ensures fp.CompareFunc[T](cmp).ThenComparing(p).Less(x, y) && fp.CompareFunc[T](cmp).ThenComparing(p).Less(y, z) ==> fp.CompareFunc[T](cmp).ThenComparing(p).Less(x, z)
+//@   tag lessTrans
+//@   ensures (fp.CompareFunc[T](cmp).ThenComparing(p).Compare(x, y) < 0) == fp.CompareFunc[T](cmp).ThenComparing(p).Less(x, y) && (fp.CompareFunc[T](cmp).ThenComparing(p).Compare(x, y) == 0) == fp.CompareFunc[T](cmp).ThenComparing(p).Eqv(x, y) && (fp.CompareFunc[T](cmp).ThenComparing(p).Compare(x, y) > 0) == fp.CompareFunc[T](cmp).ThenComparing(p).Less(y, x)
+//@   tag compare
+//@   ensures fp.CompareFunc[T](cmp).ThenComparing(p).LessEq(x, y) == (fp.CompareFunc[T](cmp).ThenComparing(p).Less(x, y) || fp.CompareFunc[T](cmp).ThenComparing(p).Eqv(x, y))
+//@   tag lessEq
+//@   ensures fp.CompareFunc[T](cmp).ThenComparing(p).Less(x, y) ==> Eq(fp.CompareFunc[T](cmp).ThenComparing(p).Min(x, y), x) && Eq(fp.CompareFunc[T](cmp).ThenComparing(p).Max(x, y), y)
+//@   tag minmaxLess
+//@   ensures fp.CompareFunc[T](cmp).ThenComparing(p).Less(y, x) ==> Eq(fp.CompareFunc[T](cmp).ThenComparing(p).Min(x, y), y) && Eq(fp.CompareFunc[T](cmp).ThenComparing(p).Max(x, y), x)
+//@   tag minmaxGreater
+//@   ensures (Eq(fp.CompareFunc[T](cmp).ThenComparing(p).Min(x, y), x) && Eq(fp.CompareFunc[T](cmp).ThenComparing(p).Max(x, y), y)) || (Eq(fp.CompareFunc[T](cmp).ThenComparing(p).Min(x, y), y) && Eq(fp.CompareFunc[T](cmp).ThenComparing(p).Max(x, y), x))
+//@   tag minmaxPerm
+//@   ensures veriflaws.OrdLaws(fp.CompareFunc[T](cmp).ThenComparing(p))
+//@   tag laws
+//
+//@ lemma thenComparingLessFunc[T any](less func(a, b T) bool, p fp.Ord[T], x T, y T, z T)
+//@   prop C10
+//@   requires veriflaws.StrictWeakOrder(less) && veriflaws.OrdCore(p)
+//@   ensures less(x, y) ==> fp.LessFunc[T](less).ThenComparing(p).Compare(x, y) < 0
+//@   tag defPrimaryLess
+//@   ensures less(y, x) ==> fp.LessFunc[T](less).ThenComparing(p).Compare(x, y) > 0
+//@   tag defPrimaryGreater
+//@   ensures !less(x, y) && !less(y, x) ==> fp.LessFunc[T](less).ThenComparing(p).Compare(x, y) == p.Compare(x, y)
+//@   tag defTie
+//@   ensures fp.LessFunc[T](less).ThenComparing(p).Less(x, y) == (less(x, y) || (!less(x, y) && !less(y, x) && p.Less(x, y)))
+//@   tag defLess
+//@   ensures fp.LessFunc[T](less).ThenComparing(p).Eqv(x, y) == (!less(x, y) && !less(y, x) && p.Eqv(x, y))
+//@   tag defEqv
+//@   ensures fp.LessFunc[T](less).ThenComparing(p).Eqv(x, x)
+//@   tag refl
+//@   ensures fp.LessFunc[T](less).ThenComparing(p).Eqv(x, y) == fp.LessFunc[T](less).ThenComparing(p).Eqv(y, x)
+//@   tag sym
+//@   ensures fp.LessFunc[T](less).ThenComparing(p).Eqv(x, y) && fp.LessFunc[T](less).ThenComparing(p).Eqv(y, z) ==> fp.LessFunc[T](less).ThenComparing(p).Eqv(x, z)
+//@   tag trans
+//@   ensures veriflaws.ExactlyOne(fp.LessFunc[T](less).ThenComparing(p).Less(x, y), fp.LessFunc[T](less).ThenComparing(p).Less(y, x), fp.LessFunc[T](less).ThenComparing(p).Eqv(x, y))
+//@   tag trichotomy
+//@   ensures fp.LessFunc[T](less).ThenComparing(p).Less(x, y) && fp.LessFunc[T](less).ThenComparing(p).Less(y, z) ==> fp.LessFunc[T](less).ThenComparing(p).Less(x, z)
+//@   tag lessTrans
+//@   ensures (fp.LessFunc[T](less).ThenComparing(p).Compare(x, y) < 0) == fp.LessFunc[T](less).ThenComparing(p).Less(x, y) && (fp.LessFunc[T](less).ThenComparing(p).Compare(x, y) == 0) == fp.LessFunc[T](less).ThenComparing(p).Eqv(x, y) && (fp.LessFunc[T](less).ThenComparing(p).Compare(x, y) > 0) == fp.LessFunc[T](less).ThenComparing(p).Less(y, x)
+//@   tag compare
+//@   ensures fp.LessFunc[T](less).ThenComparing(p).LessEq(x, y) == (fp.LessFunc[T](less).ThenComparing(p).Less(x, y) || fp.LessFunc[T](less).ThenComparing(p).Eqv(x, y))
+//@   tag lessEq
+//@   ensures fp.LessFunc[T](less).ThenComparing(p).Less(x, y) ==> Eq(fp.LessFunc[T](less).ThenComparing(p).Min(x, y), x) && Eq(fp.LessFunc[T](less).ThenComparing(p).Max(x, y), y)
+//@   tag minmaxLess
+//@   ensures fp.LessFunc[T](less).ThenComparing(p).Less(y, x) ==> Eq(fp.LessFunc[T](less).ThenComparing(p).Min(x, y), y) && Eq(fp.LessFunc[T](less).ThenComparing(p).Max(x, y), x)
+//@   tag minmaxGreater
+//@   ensures (Eq(fp.LessFunc[T](less).ThenComparing(p).Min(x, y), x) && Eq(fp.LessFunc[T](less).ThenComparing(p).Max(x, y), y)) || (Eq(fp.LessFunc[T](less).ThenComparing(p).Min(x, y), y) && Eq(fp.LessFunc[T](less).ThenComparing(p).Max(x, y), x))
+//@   tag minmaxPerm
+//@   ensures veriflaws.OrdLaws(fp.LessFunc[T](less).ThenComparing(p))
+//@   tag laws
+//
+//@ lemma thenComparingOrdInstances[A any](o fp.Ord[int64], p fp.Ord[A], f func(A) int64, x A, y A)
+//@   prop C10
+//@   requires veriflaws.OrdCore(p)
+//@   ensures GivenField(f).ThenComparing(p).Less(x, y) == (f(x) < f(y) || (f(x) == f(y) && p.Less(x, y)))
+//@   tag defLess
+//@   ensures GivenField(f).ThenComparing(p).Eqv(x, y) == (f(x) == f(y) && p.Eqv(x, y))
+//@   tag defEqv
+//
+// ---- Reversed (flips) ------------------------------------------------------
+//
+//@ lemma reversedCompareFunc[T any](cmp func(a, b T) int, x T, y T, z T)
+//@   prop C10
+//@   requires veriflaws.CompareLaws(cmp)
+//@   ensures fp.CompareFunc[T](cmp).Reversed().Less(x, y) == fp.CompareFunc[T](cmp).Less(y, x)
+//@   tag defFlips
+//@   ensures fp.CompareFunc[T](cmp).Reversed().Eqv(x, y) == fp.CompareFunc[T](cmp).Eqv(x, y)
+//@   tag defEqv
+//@   ensures fp.CompareFunc[T](cmp).Reversed().Compare(x, y) == -cmp(x, y)
+//@   tag defCompare
+//@   ensures fp.CompareFunc[T](cmp).Reversed().Reversed().Compare(x, y) == cmp(x, y)
+//@   tag involution
+//@   ensures fp.CompareFunc[T](cmp).Reversed().Eqv(x, x)
+//@   tag refl
+//@   ensures fp.CompareFunc[T](cmp).Reversed().Eqv(x, y) == fp.CompareFunc[T](cmp).Reversed().Eqv(y, x)
+//@   tag sym
+//@   ensures fp.CompareFunc[T](cmp).Reversed().Eqv(x, y) && fp.CompareFunc[T](cmp).Reversed().Eqv(y, z) ==> fp.CompareFunc[T](cmp).Reversed().Eqv(x, z)
+//@   tag trans
+//@   ensures veriflaws.ExactlyOne(fp.CompareFunc[T](cmp).Reversed().Less(x, y), fp.CompareFunc[T](cmp).Reversed().Less(y, x), fp.CompareFunc[T](cmp).Reversed().Eqv(x, y))
+//@   tag trichotomy
+//@   ensures fp.CompareFunc[T](cmp).Reversed().Less(x, y) && fp.CompareFunc[T](cmp).Reversed().Less(y, z) ==> fp.CompareFunc[T](cmp).Reversed().Less(x, z)
+//@   tag lessTrans
+//@   ensures (fp.CompareFunc[T](cmp).Reversed().Compare(x, y) < 0) == fp.CompareFunc[T](cmp).Reversed().Less(x, y) && (fp.CompareFunc[T](cmp).Reversed().Compare(x, y) == 0) == fp.CompareFunc[T](cmp).Reversed().Eqv(x, y) && (fp.CompareFunc[T](cmp).Reversed().Compare(x, y) > 0) == fp.CompareFunc[T](cmp).Reversed().Less(y, x)
+//@   tag compare
+//@   ensures fp.CompareFunc[T](cmp).Reversed().LessEq(x, y) == (fp.CompareFunc[T](cmp).Reversed().Less(x, y) || fp.CompareFunc[T](cmp).Reversed().Eqv(x, y))
+//@   tag lessEq
+//@   ensures fp.CompareFunc[T](cmp).Reversed().Less(x, y) ==> Eq(fp.CompareFunc[T](cmp).Reversed().Min(x, y), x) && Eq(fp.CompareFunc[T](cmp).Reversed().Max(x, y), y)
+//@   tag minmaxLess
+//@   ensures fp.CompareFunc[T](cmp).Reversed().Less(y, x) ==> Eq(fp.CompareFunc[T](cmp).Reversed().Min(x, y), y) && Eq(fp.CompareFunc[T](cmp).Reversed().Max(x, y), x)
+//@   tag minmaxGreater
+//@   ensures (Eq(fp.CompareFunc[T](cmp).Reversed().Min(x, y), x) && Eq(fp.CompareFunc[T](cmp).Reversed().Max(x, y), y)) || (Eq(fp.CompareFunc[T](cmp).Reversed().Min(x, y), y) && Eq(fp.CompareFunc[T](cmp).Reversed().Max(x, y), x))
+//@   tag minmaxPerm
+//@   ensures veriflaws.OrdLaws(fp.CompareFunc[T](cmp).Reversed())
+//@   tag laws
+//
+//@ lemma reversedLessFunc[T any](less func(a, b T) bool, x T, y T, z T)
+//@   prop C10
+//@   requires veriflaws.StrictWeakOrder(less)
+//@   ensures fp.LessFunc[T](less).Reversed().Less(x, y) == less(y, x)
+//@   tag defFlips
+//@   ensures fp.LessFunc[T](less).Reversed().Eqv(x, y) == (!less(x, y) && !less(y, x))
+//@   tag defEqv
+//@   ensures fp.LessFunc[T](less).Reversed().Reversed().Less(x, y) == less(x, y)
+//@   tag involution
+//@   ensures fp.LessFunc[T](less).Reversed().Eqv(x, x)
+//@   tag refl
+//@   ensures fp.LessFunc[T](less).Reversed().Eqv(x, y) == fp.LessFunc[T](less).Reversed().Eqv(y, x)
+//@   tag sym
+//@   ensures fp.LessFunc[T](less).Reversed().Eqv(x, y) && fp.LessFunc[T](less).Reversed().Eqv(y, z) ==> fp.LessFunc[T](less).Reversed().Eqv(x, z)
+//@   tag trans
+//@   ensures veriflaws.ExactlyOne(fp.LessFunc[T](less).Reversed().Less(x, y), fp.LessFunc[T](less).Reversed().Less(y, x), fp.LessFunc[T](less).Reversed().Eqv(x, y))
+//@   tag trichotomy
+//@   ensures fp.LessFunc[T](less).Reversed().Less(x, y) && fp.LessFunc[T](less).Reversed().Less(y, z) ==> fp.LessFunc[T](less).Reversed().Less(x, z)
+//@   tag lessTrans
+//@   ensures (fp.LessFunc[T](less).Reversed().Compare(x, y) < 0) == fp.LessFunc[T](less).Reversed().Less(x, y) && (fp.LessFunc[T](less).Reversed().Compare(x, y) == 0) == fp.LessFunc[T](less).Reversed().Eqv(x, y) && (fp.LessFunc[T](less).Reversed().Compare(x, y) > 0) == fp.LessFunc[T](less).Reversed().Less(y, x)
+//@   tag compare
+//@   ensures fp.LessFunc[T](less).Reversed().LessEq(x, y) == (fp.LessFunc[T](less).Reversed().Less(x, y) || fp.LessFunc[T](less).Reversed().Eqv(x, y))
+//@   tag lessEq
+//@   ensures fp.LessFunc[T](less).Reversed().Less(x, y) ==> Eq(fp.LessFunc[T](less).Reversed().Min(x, y), x) && Eq(fp.LessFunc[T](less).Reversed().Max(x, y), y)
+//@   tag minmaxLess
+//@   ensures fp.LessFunc[T](less).Reversed().Less(y, x) ==> Eq(fp.LessFunc[T](less).Reversed().Min(x, y), y) && Eq(fp.LessFunc[T](less).Reversed().Max(x, y), x)
+//@   tag minmaxGreater
+//@   ensures (Eq(fp.LessFunc[T](less).Reversed().Min(x, y), x) && Eq(fp.LessFunc[T](less).Reversed().Max(x, y), y)) || (Eq(fp.LessFunc[T](less).Reversed().Min(x, y), y) && Eq(fp.LessFunc[T](less).Reversed().Max(x, y), x))
+//@   tag minmaxPerm
+//@   ensures veriflaws.OrdLaws(fp.LessFunc[T](less).Reversed())
+//@   tag laws
+//
+//@ lemma reversedOrdInstances[A any](o1 fp.Ord[A], x fp.Tuple1[A], y fp.Tuple1[A], a int64, b int64)
+//@   prop C10
+//@   requires veriflaws.OrdCore(o1)
+//@   ensures Tuple1(o1).Reversed().Less(x, y) == o1.Less(y.I1, x.I1)
+//@   tag tuple1
+//@   ensures Given[int64]().Reversed().Less(a, b) == (a > b)
+//@   tag given
+//@   ensures Given[int64]().Reversed().Min(a, b) == Given[int64]().Max(a, b) || a == b
+//@   tag minIsMax
+//
+// ---- Tuple2 .. (lexicographic) ---------------------------------------------
+//
+// Quick range: full laws for N=2..3, characterisation only for N=4.  For N>=5
+// (and 4 of the laws at N=3) the symbolic executor runs out of its step
+// budget: Compare of Tuple{N} evaluates Compare of Tuple{N-1} up to three times.
+//
+//@ schema N=2..3
+//@ lemma tuple{N}Ord[<<i=1..N|, |A$i>> any](<<i=1..N|, |o$i fp.Ord[A$i]>>, x fp.Tuple{N}[<<i=1..N|, |A$i>>], y fp.Tuple{N}[<<i=1..N|, |A$i>>], z fp.Tuple{N}[<<i=1..N|, |A$i>>])
+//@   prop C10
+//@   requires <<i=1..N| && |veriflaws.OrdCore(o$i)>>
+//@   ensures Tuple{N}(<<i=1..N|, |o$i>>).Less(x, y) == (<<k=1..N-1||o$k.Less(x.I$k, y.I$k) || (o$k.Eqv(x.I$k, y.I$k) && (>>o{N}.Less(x.I{N}, y.I{N})<<k=1..N-1||))>>)
+//@   tag defLess
+//@   ensures Tuple{N}(<<i=1..N|, |o$i>>).Eqv(x, y) == (<<i=1..N| && |o$i.Eqv(x.I$i, y.I$i)>>)
+//@   tag defEqv
+//@   ensures Tuple{N}(<<i=1..N|, |o$i>>).Eqv(x, x)
+//@   tag refl
+//@   ensures Tuple{N}(<<i=1..N|, |o$i>>).Eqv(x, y) == Tuple{N}(<<i=1..N|, |o$i>>).Eqv(y, x)
+//@   tag sym
+//@   ensures Tuple{N}(<<i=1..N|, |o$i>>).Eqv(x, y) && Tuple{N}(<<i=1..N|, |o$i>>).Eqv(y, z) ==> Tuple{N}(<<i=1..N|, |o$i>>).Eqv(x, z)
+//@   tag trans
+//@   ensures veriflaws.ExactlyOne(Tuple{N}(<<i=1..N|, |o$i>>).Less(x, y), Tuple{N}(<<i=1..N|, |o$i>>).Less(y, x), Tuple{N}(<<i=1..N|, |o$i>>).Eqv(x, y))
+//@   tag trichotomy
+//@   ensures Tuple{N}(<<i=1..N|, |o$i>>).Less(x, y) && Tuple{N}(<<i=1..N|, |o$i>>).Less(y, z) ==> Tuple{N}(<<i=1..N|, |o$i>>).Less(x, z)
+//@   tag lessTrans
+//@   ensures (Tuple{N}(<<i=1..N|, |o$i>>).Compare(x, y) < 0) == Tuple{N}(<<i=1..N|, |o$i>>).Less(x, y) && (Tuple{N}(<<i=1..N|, |o$i>>).Compare(x, y) == 0) == Tuple{N}(<<i=1..N|, |o$i>>).Eqv(x, y) && (Tuple{N}(<<i=1..N|, |o$i>>).Compare(x, y) > 0) == Tuple{N}(<<i=1..N|, |o$i>>).Less(y, x)
+//@   tag compare
+//@   ensures Tuple{N}(<<i=1..N|, |o$i>>).LessEq(x, y) == (Tuple{N}(<<i=1..N|, |o$i>>).Less(x, y) || Tuple{N}(<<i=1..N|, |o$i>>).Eqv(x, y))
+//@   tag lessEq
+//@   ensures Tuple{N}(<<i=1..N|, |o$i>>).Less(x, y) ==> Eq(Tuple{N}(<<i=1..N|, |o$i>>).Min(x, y), x) && Eq(Tuple{N}(<<i=1..N|, |o$i>>).Max(x, y), y)
+//@   tag minmaxLess
+//@   ensures Tuple{N}(<<i=1..N|, |o$i>>).Less(y, x) ==> Eq(Tuple{N}(<<i=1..N|, |o$i>>).Min(x, y), y) && Eq(Tuple{N}(<<i=1..N|, |o$i>>).Max(x, y), x)
+//@   tag minmaxGreater
+//@   ensures (Eq(Tuple{N}(<<i=1..N|, |o$i>>).Min(x, y), x) && Eq(Tuple{N}(<<i=1..N|, |o$i>>).Max(x, y), y)) || (Eq(Tuple{N}(<<i=1..N|, |o$i>>).Min(x, y), y) && Eq(Tuple{N}(<<i=1..N|, |o$i>>).Max(x, y), x))
+//@   tag minmaxPerm
+//@ schema end
+//
+//@ schema N=4..4
+//@ lemma tuple{N}OrdDef[<<i=1..N|, |A$i>> any](<<i=1..N|, |o$i fp.Ord[A$i]>>, x fp.Tuple{N}[<<i=1..N|, |A$i>>], y fp.Tuple{N}[<<i=1..N|, |A$i>>])
+//@   prop C10
+//@   requires <<i=1..N| && |veriflaws.OrdCore(o$i)>>
+//@   ensures Tuple{N}(<<i=1..N|, |o$i>>).Less(x, y) == (<<k=1..N-1||o$k.Less(x.I$k, y.I$k) || (o$k.Eqv(x.I$k, y.I$k) && (>>o{N}.Less(x.I{N}, y.I{N})<<k=1..N-1||))>>)
+//@   tag defLess
+//@   ensures Tuple{N}(<<i=1..N|, |o$i>>).Eqv(x, y) == (<<i=1..N| && |o$i.Eqv(x.I$i, y.I$i)>>)
+//@   tag defEqv
+//@   ensures Tuple{N}(<<i=1..N|, |o$i>>).Eqv(x, x)
+//@   tag refl
+//@ schema end
